@@ -57,6 +57,12 @@ def scoreOp (args : List String) : String :=
       withSpec (fmtScore (Score.min a b))
         (if Valid a ∧ Valid b then some (fmtScore (if rank a < rank b then a else b)) else none)
     | _, _ => "bad-op"
+  | ["heur", k] => match k.toInt? with
+    | some k => withSpec (fmtScore (heuristicScore k)) (some s!"H:0:{k}")   -- the heuristic score OF that value
+    | none => "bad-op"
+  | ["mate", m] => match m.toInt? with
+    | some m => withSpec (fmtScore (mateInXScore m)) (some s!"M:{m}:0")
+    | none => "bad-op"
   | ["dist", a] => match parseScore? a with
     | some a => match a.mateDistance with
       | some d => toString d
